@@ -312,6 +312,7 @@ func normalizeHostNoLower(host string, tls bool) string {
 // matchingHosts returns all keys (host name patterns) from the
 // routing table which match the normalized request hostname.
 func (t Table) matchingHosts(req *http.Request, globCache *GlobCache) (hosts []string) {
+	var exact []string
 	host := normalizeHost(req.Host, req.TLS != nil)
 	for pattern := range t {
 		normpat := normalizeHost(pattern, req.TLS != nil)
@@ -325,12 +326,16 @@ func (t Table) matchingHosts(req *http.Request, globCache *GlobCache) (hosts []s
 			g = glob.MustCompile(normpat)
 		}
 
-		if g.Match(host) {
+		switch {
+		case normpat == host:
+			// a literal match is more specific than any glob pattern
+			exact = append(exact, pattern)
+		case g.Match(host):
 			hosts = append(hosts, pattern)
 		}
 	}
 
-	hosts = sortHostsReverseHostPort(hosts)
+	hosts = append(sortHostsReverseHostPort(exact), sortHostsReverseHostPort(hosts)...)
 	return
 }
 
